@@ -8,6 +8,7 @@ import Blue.Proofs.ConstsTieC04
 import Blue.Proofs.BooksCrash
 import Blue.Proofs.BooksBytes
 import Blue.Proofs.BooksBytesSetsum
+import Blue.Proofs.BooksRollCrash
 /-! # Property C04 — one setsum covers all data: manifest, files and contents always balance
 
 Property theorems only.  Two layers, both over any commutative group (`Grp`; the canonical setsum
@@ -71,8 +72,14 @@ added, `I`/`O`/`D` of the LAST transaction) the new fragment `roll-up :: later` 
 `books_across_rollover_bytes`), and the checks of a later record would reject the roll-up
 (`rollup_needs_first_record_rule` and its example).  Not in these theorems: the `L` field of a
 flush's edit; `bookedEdit` takes the record's file lists in the order written (the verdict does not
-depend on it: `digest_names_same_verdict`), and that C13's `rollup` of the replayed state IS
-`bookedEdit` of `rollRec` (sorted, duplicate-free strings) is checked on the example, not in general;
+depend on it: `digest_names_same_verdict`).  That C13's `rollup` of the replayed state IS
+`bookedEdit` of `rollRec` up to the order of the added list is block `BooksRollCrash`
+(`rollup_is_booked_rollrec`, for non-empty good manifests whose live files have pairwise distinct
+digests at every prefix), with the books at every crash point inside the rollover's system calls
+(`books_at_every_crash_point_of_a_rollover`, `…_of_an_apply_rollover`: C13's `rollover` / `editRoll`
+blocks after the last transaction, both persistence models, and after the reopen that finishes the
+interrupted rollover; the histories are one `apply` per transaction then the rollover — earlier
+rollovers in the same history, and transactions after the crashed one, are not in these two);
 two files with one digest collapse into one string of the `BTreeSet`.
 
 Clauses of the property that are not theorems here: tampers of the
@@ -865,6 +872,157 @@ example :
 end BooksBytes
 -- END BooksBytes
 
+-- BEGIN BooksRollCrash
+/-! ## the books across a manifest rollover interrupted by a crash (C04 ∘ C13's system calls) -/
+section BooksRollCrash
+open Blue.BooksCrash Blue.BooksBytes Blue.BooksRollCrash Blue.Mani Blue.ManiCrash
+variable {G : Type} [DecidableEq G] (g : Grp G) (h : Nat → G)
+
+/-- **`rollup_is_booked_rollrec`** (general form of the equality the `BooksBytes` example checks):
+    for every non-empty good booked manifest `M` whose live files have pairwise distinct digests at
+    every prefix (`hnd`: what makes the `BTreeSet<String>` of rendered digests faithful — two live
+    files with one digest are one string, and removing one would remove both), the edit C13's
+    `rollover` writes for the state the booked edits replay to IS `bookedEdit` of a record with
+    `rollRec`'s `I`, `O`, `D`, no removal, and an added list that is a permutation of the live
+    files' digests (the set's order).  `M ≠ []`: with no transaction the info map is empty, while
+    `rollRec` carries the zeros `LsmTree::open` writes. -/
+theorem rollup_is_booked_rollrec (c : Codec G) (hc : c.Ok) (M : List Blue.StoreCrash.Tx) (hne : M ≠ [])
+    (hgood : GoodTxs [] M)
+    (hnd : ∀ k, ((Blue.StoreCrash.live (M.take k)).map (Blue.BooksCrash.digest g h)).Nodup) :
+    let R := rollRec g.zero (booked g h [] M) (Blue.StoreCrash.live M)
+    ∃ ad : List G, ad.Perm ((Blue.StoreCrash.live M).map (Blue.BooksCrash.digest g h))
+      ∧ maniAlgebra.rollup (replay maniAlgebra (maniEdits g h c M)) = bookedEdit c ⟨R.I, R.O, R.D, [], ad⟩ :=
+  Blue.BooksRollCrash.rollup_is_booked_rollrec g h c hc M hne hgood hnd
+
+/-- what `OldBooks` / `NewBooks` say of the edits `d` MANIFEST holds -/
+theorem rollover_books_mean (c : Codec G) (M : List Blue.StoreCrash.Tx) (d : List Edit) :
+    (OldBooks g h c M d ↔
+      d = maniEdits g h c M
+      ∧ recsOfEdits c d = some (maniRecs g h M)
+      ∧ verify g id g.zero (maniRecs g h M) = true
+      ∧ lastO g.zero (maniRecs g h M) = total g (Blue.BooksCrash.digest g h) (Blue.StoreCrash.live M))
+    ∧ (NewBooks g h c M d ↔
+      d = [maniAlgebra.rollup (replay maniAlgebra (maniEdits g h c M))]
+      ∧ ∃ R' : Rec G G, recsOfEdits c d = some [R']
+        ∧ SameUpToOrder [R'] [digestRec (Blue.BooksCrash.digest g h)
+            (rollRec g.zero (booked g h [] M) (Blue.StoreCrash.live M))]
+        ∧ verifyFrag g id (lastO g.zero (booked g h [] M)) [R'] = true
+        ∧ lastO (lastO g.zero (booked g h [] M)) [R'] = total g (Blue.BooksCrash.digest g h) (Blue.StoreCrash.live M)
+        ∧ lastO g.zero (booked g h [] M) = total g id R'.ad) :=
+  ⟨Iff.rfl, Iff.rfl⟩
+
+/-- **`books_at_every_crash_point_of_a_rollover`**: the booked history of the good transactions `M`
+    (one `apply` per transaction: C13 `Client.edit`), then `Manifest::rollover` (C13
+    `Client.rollover`: link, unlink tmp, write tmp, sync tmp, rename); a crash at ANY call `n` from
+    the rollover's first on (`3·|M| ≤ n`), both persistence models `b`.  Before the rename MANIFEST
+    is the old fragment, whole (`OldBooks`: its edits parse to the booked records, `Books.verify`
+    accepts them from zero, last `O` = Σ live files); from the rename on it is the roll-up alone
+    (`NewBooks`: it parses to `rollRec` up to order, `verify_one`'s first-record rule accepts it from
+    the old accumulator, its `O` = Σ live files = Σ of the digests it adds) — never a torn roll-up,
+    the temporary being synced before it is renamed.  `Manifest::open` reads either from its BYTES
+    to the state of all of `M`, and once the reopen's rollover (which finishes the interrupted one)
+    has completed MANIFEST is the roll-up, read from its bytes to the same state, `NewBooks`. -/
+theorem books_at_every_crash_point_of_a_rollover (crc : List Nat → Nat) (hcrc : CrcOk crc) (c : Codec G) (hc : c.Ok)
+    (M : List Blue.StoreCrash.Tx) (hne : M ≠ []) (hgood : GoodTxs [] M)
+    (hnd : ∀ k, ((Blue.StoreCrash.live (M.take k)).map (Blue.BooksCrash.digest g h)).Nodup)
+    (n : Nat) (hn : 3 * M.length ≤ n) (b : Bool) :
+    let es := maniEdits g h c M
+    let fs := crash b (run emptyFs ((opsOf maniAlgebra (es.map Client.edit ++ [Client.rollover]) []).take n))
+    let fs' := run fs (reopenOps maniAlgebra fs)
+    ((n < 3 * M.length + 5 ∧ OldBooks g h c M fs.mani.durable)
+      ∨ (3 * M.length + 5 ≤ n ∧ NewBooks g h c M fs.mani.durable))
+    ∧ openBytes crc (fileBytes crc fs.mani.durable) = some (replay maniAlgebra es)
+    ∧ openBytes crc (fileBytes crc fs'.mani.durable) = some (replay maniAlgebra es)
+    ∧ NewBooks g h c M fs'.mani.durable :=
+  Blue.BooksRollCrash.books_at_every_crash_point_of_a_rollover g h c crc hcrc hc M hne hgood hnd n hn b
+
+/-- … the rollover inside the `apply` that crossed the ratio (C13 `Client.editRoll`: the last
+    transaction's append and sync, the five calls, then the acknowledgement): every crash point
+    from the `link` on (`3·|M0| + 2 ≤ n`) -/
+theorem books_at_every_crash_point_of_an_apply_rollover (crc : List Nat → Nat) (hcrc : CrcOk crc) (c : Codec G)
+    (hc : c.Ok) (M0 : List Blue.StoreCrash.Tx) (tx : Blue.StoreCrash.Tx) (hgood : GoodTxs [] (M0 ++ [tx]))
+    (hnd : ∀ k, ((Blue.StoreCrash.live ((M0 ++ [tx]).take k)).map (Blue.BooksCrash.digest g h)).Nodup)
+    (n : Nat) (hn : 3 * M0.length + 2 ≤ n) (b : Bool) :
+    let M := M0 ++ [tx]
+    let es := maniEdits g h c M
+    let e := bookedEdit c (digestRec (Blue.BooksCrash.digest g h)
+      (storeRec g (Blue.BooksCrash.digest g h) (Blue.StoreCrash.live M0) tx.rms tx.adds))
+    let fs := crash b (run emptyFs
+      ((opsOf maniAlgebra ((maniEdits g h c M0).map Client.edit ++ [Client.editRoll e]) []).take n))
+    let fs' := run fs (reopenOps maniAlgebra fs)
+    ((n < 3 * M0.length + 7 ∧ OldBooks g h c M fs.mani.durable)
+      ∨ (3 * M0.length + 7 ≤ n ∧ NewBooks g h c M fs.mani.durable))
+    ∧ openBytes crc (fileBytes crc fs.mani.durable) = some (replay maniAlgebra es)
+    ∧ openBytes crc (fileBytes crc fs'.mani.durable) = some (replay maniAlgebra es)
+    ∧ NewBooks g h c M fs'.mani.durable :=
+  Blue.BooksRollCrash.books_at_every_crash_point_of_an_apply_rollover g h c crc hcrc hc M0 tx hgood hnd n hn b
+
+/-- non-vacuity of the hypotheses (ℤ mod 7, codec `c7`): the two flushes `{0}`, `{1}` are a non-empty
+    good manifest whose live files have distinct digests (1 and 4) at every prefix -/
+example : exM3.take 2 ≠ [] ∧ GoodTxs [] (exM3.take 2)
+    ∧ ∀ k, ((Blue.StoreCrash.live ((exM3.take 2).take k)).map (Blue.BooksCrash.digest z7 h7)).Nodup := by
+  refine ⟨by decide, by refine ⟨?_, ?_, trivial⟩ <;> (unfold GoodTx; decide), ?_⟩
+  intro k
+  rcases k with _ | _ | k
+  · decide
+  · decide
+  · have : (exM3.take 2).take (k + 1 + 1) = exM3.take 2 := by simp [exM3]
+    rw [this]; decide
+
+/-- non-vacuity of the conclusion, the crash INSIDE the rollover: two transactions, rollover, crash
+    after the temporary is written and before it is synced or renamed (call 9 = 3·2 + 3), model (b).
+    MANIFEST still holds the two booked edits (linked to its backup, the unsynced temporary empty);
+    they parse to the booked records, verify from zero, last `O = 5`.  The reopen finishes the
+    rollover without a second link: MANIFEST is the roll-up `+1 +4 D3 I1 O5`, it parses to the record
+    `I = 1, O = 5, D = 3`, adding the digests 1 and 4, the first-record rule accepts it from 5, and
+    `5 = 1 + 4` is the sum over the two live files. -/
+example :
+    let M := exM3.take 2
+    let es := maniEdits z7 h7 c7 M
+    let fs := crash true (run emptyFs ((opsOf maniAlgebra (es.map Client.edit ++ [Client.rollover]) []).take 9))
+    let fs' := run fs (reopenOps maniAlgebra fs)
+    fs.mani.durable = es ∧ fs.linked = true ∧ fs.backups = [es]
+    ∧ fs.tmp.map (fun f => (f.durable, f.pending)) = some ([], [])
+    ∧ recsOfEdits c7 fs.mani.durable = some (maniRecs z7 h7 M)
+    ∧ verify z7 id 0 (maniRecs z7 h7 M) = true ∧ lastO 0 (maniRecs z7 h7 M) = 5
+    ∧ fs'.mani.durable = [⟨[], [[49], [52]], [(68, [51]), (73, [49]), (79, [53])]⟩]
+    ∧ fs'.backups = [es] ∧ fs'.linked = false
+    ∧ fs'.mani.durable = [maniAlgebra.rollup (replay maniAlgebra es)]
+    ∧ recsOfEdits c7 fs'.mani.durable = some [⟨1, 5, 3, [], [1, 4]⟩]
+    ∧ verifyFrag z7 id 5 [(⟨1, 5, 3, [], [1, 4]⟩ : Rec (Fin 7) (Fin 7))] = true
+    ∧ total z7 (Blue.BooksCrash.digest z7 h7) (Blue.StoreCrash.live M) = 5
+    ∧ total z7 id [1, 4] = 5 := by decide
+
+/-- … the rollover inside `apply` (`editRoll`), same two transactions: cut at call 8 (append, sync of
+    the second edit, link, unlink, write tmp) MANIFEST holds both booked edits; cut at call 10
+    (after the rename, before `apply` returns) it holds the roll-up, under both models -/
+example :
+    let es := maniEdits z7 h7 c7 (exM3.take 2)
+    let e := bookedEdit c7 (digestRec (Blue.BooksCrash.digest z7 h7)
+      (storeRec z7 (Blue.BooksCrash.digest z7 h7) (Blue.StoreCrash.live (exM3.take 1)) [] [[1]]))
+    let ops := opsOf maniAlgebra ((maniEdits z7 h7 c7 (exM3.take 1)).map Client.edit ++ [Client.editRoll e]) []
+    (crash true (run emptyFs (ops.take 8))).mani.durable = es
+    ∧ (crash false (run emptyFs (ops.take 8))).mani.durable = es
+    ∧ (crash true (run emptyFs (ops.take 10))).mani.durable = [maniAlgebra.rollup (replay maniAlgebra es)]
+    ∧ (crash false (run emptyFs (ops.take 10))).mani.durable = [maniAlgebra.rollup (replay maniAlgebra es)]
+    ∧ acked (ops.take 10) = 1 := by decide
+
+/-- **the distinct-digest hypothesis is needed**: the files `{0}` and `{7}` have the same toy digest
+    (1).  Flush both: a good manifest, two live files, `O = 1 + 1 = 2`; the manifest's string set
+    holds ONE string, so the roll-up adds one digest, and `from_manifest`'s comparison on it
+    (`O` against the sum of the added digests) would fail: `2 ≠ 1`.  (With the real setsum, files
+    are NAMED by their digest, so two live files with one digest are also one path in `sst/`.) -/
+example :
+    let M : List Blue.StoreCrash.Tx := [⟨[[0]], []⟩, ⟨[[7]], []⟩]
+    Blue.StoreCrash.live M = [[0], [7]]
+    ∧ (Blue.StoreCrash.live M).map (Blue.BooksCrash.digest z7 h7) = [1, 1]
+    ∧ lastO 0 (maniRecs z7 h7 M) = 2
+    ∧ recsOfEdits c7 [maniAlgebra.rollup (replay maniAlgebra (maniEdits z7 h7 c7 M))] = some [⟨1, 2, 6, [], [1]⟩]
+    ∧ total z7 id [(1 : Fin 7)] = 1 := by decide
+
+end BooksRollCrash
+-- END BooksRollCrash
+
 end Blue.Props.C04
 
 #print axioms Blue.Props.C04.group
@@ -917,3 +1075,7 @@ end Blue.Props.C04
 #print axioms Blue.Props.C04.books_across_rollover
 #print axioms Blue.Props.C04.rollup_needs_first_record_rule
 #print axioms Blue.Props.C04.books_across_rollover_bytes
+#print axioms Blue.Props.C04.rollup_is_booked_rollrec
+#print axioms Blue.Props.C04.rollover_books_mean
+#print axioms Blue.Props.C04.books_at_every_crash_point_of_a_rollover
+#print axioms Blue.Props.C04.books_at_every_crash_point_of_an_apply_rollover
